@@ -20,7 +20,7 @@ def run(ctx):
     try:
         mnemonics = set(run_.drv.ask(["mnemonics"])[0].split())
         s = core.Stream("S4-relayout", "generated programs (and the repository's sample sources) vs twins obtained by random compositions of the listed presentation changes at every applicable position: blank lines, indentation (spaces/tabs), trailing blanks, full-line and end-of-line ';' comments, own-line '/* */' comments (also multi-line), spaces next to operators / commas / after '#' and brackets, letter case of mnemonics, size suffixes, index registers and hex digits, a run of top-level statements moved into an .include'd file; flattened writes and all label values must be equal; the relayouted text is also run through the model; non-trivial = distinct (rom, change kinds applied)")
-        n = 100 if tier == "quick" else 1500
+        n = 200 if tier == "quick" else 1500
         progs = pipeline.gen_batch(rng, run_.drv, n)
         twins_ = []
         for pr in progs:
